@@ -23,10 +23,14 @@ IMPORTS = 'Base.PyData C13.Model C13.Spec C13.Check'
 TAGS = {
     1: 'outcome (DataFrame / error class) differs from the model', 2: 'column names differ from the model',
     3: 'number of rows differs from the model', 4: 'a cell differs from the model',
+    5: 'convert_fortran_number differs from the model', 6: 're.split of the stripped row differs from the model',
     11: 'dataset read by pharmpy differs from the reference reader of docs/NONMEM.rst',
+    12: 'a row is split differently from the documented delimiter rules',
     21: 'write/read cycle: column names changed', 22: 'write/read cycle: number of rows changed',
     23: 'write/read cycle: a value changed', 24: 'write/read cycle: writing or re-reading failed',
+    25: 'update_input ($INPUT generated for the new dataset) differs from the model',
 }
+CYCLE_GUARDS = {218: ('g_no_anon', 'finding', 'C13-CYCLE-ANON-DROP'), 219: ('g_no_same_dropped', 'class', None)}
 CORR = (1, 2, 3, 4)
 # guard tag -> (conjunct name, kind, finding id)
 GUARDS = {
@@ -46,6 +50,7 @@ GUARDS = {
     214: ('g_no_date', 'class', None),
     215: ('g_names_unique', 'class', None),
     216: ('g_filters_valid', 'class', None),
+    217: ('g_time_col', 'class', None),
 }
 
 CODE_TAIL = "$PRED\nY=THETA(1)+ETA(1)+EPS(1)\n$THETA 1\n$OMEGA 1\n$SIGMA 1\n$ESTIMATION METHOD=1\n"
@@ -76,10 +81,10 @@ def num_token(rng):
         return rng.choice(['+', '-'])
     if k < 0.96:
         return '.'
-    if k < 0.98:
+    if k < 0.985:
         return '-99'
     return rng.choice(['123456789012345678901234', '1234567890123456789012345', '0.00000000000000000000001',
-                       '000000000000000000000001.5'])
+                       '000000000000000000000001.5', '12345678901234567890.123', '1.5e-12', '00012.50'])
 
 
 BAD_TOKENS = ['abc', '1..2', '2-1-1', '-5d1', '+1.5D2', '1_0', '1e', '--1', '1-', 'x1', '1e5-2', '1,5'.replace(',', ';'),
@@ -97,7 +102,7 @@ def id_tokens(rng, nrows):
         return [str(x) for x in out]
     if style < 0.8:                      # re-used ids
         return [str(rng.choice([1, 2, 3])) for _ in range(nrows)]
-    return [rng.choice(['1', '1.0', '1e0', '2', '2.5', '-1.5', '3', '1d1', '2-1', '-', '.', '-99']) for _ in range(nrows)]
+    return [rng.choice(['1', '1.0', '1e0', '2', '2.5', '-1.5', '3', '1d1', '2-1', '-', '.', '1', '2', '3', '+2', '2.0']) for _ in range(nrows)]
 
 
 PLAIN_NAMES = ['ID', 'TIME', 'DV', 'AMT', 'WGT', 'APGR', 'L1', 'DVID', 'X1', 'BLQ', 'CRCL', 'MDV', 'EVID']
@@ -136,8 +141,8 @@ def gen_columns(rng):
             cols.append((f'{nm}={syn.pop()}' if nm not in ('ID', 'DV', 'TIME', 'AMT', 'L1', 'MDV', 'EVID') else nm, nm, False))
         else:
             cols.append((nm, nm, False))
-    if rng.random() < 0.02 and len(cols) >= 2:         # duplicate name
-        cols.append((cols[0][0], cols[0][1], cols[0][2]))
+    if rng.random() < 0.02 and len(cols) >= 2 and not cols[0][2]:     # duplicate kept name: KeyError 'not unique'
+        cols.append((cols[0][0], cols[0][1], cols[0][2]))     # (duplicate DROPPED names make pandas erratic: not generated)
     return cols
 
 
@@ -147,7 +152,7 @@ def gen_spec(rng, malformed=False):
     nrows = rng.choice([1, 2, 2, 3, 3, 4, 5, 6, 8])
     wmode = rng.random()
     base_w = k if wmode < 0.62 else (rng.randrange(1, k + 1) if wmode < 0.8 else k + rng.choice([1, 2]))
-    if not malformed and wmode >= 0.8 and rng.random() < 0.75:
+    if not malformed and wmode >= 0.8 and rng.random() < 0.8:
         base_w = k                                        # keep surplus-first-row files rare
     ignc = rng.choice([None, None, None, '#', '@', '@', 'C', 'I', '"', '!', ';x'[1:]])
     if malformed and rng.random() < 0.05:
@@ -163,9 +168,9 @@ def gen_spec(rng, malformed=False):
         u = rng.random()
         if u < 0.08 and w > 1:
             w -= 1
-        elif u < 0.11 or (u < 0.2 and base_w > k):
-            w += 1
-        elif u < 0.13:
+        elif (u < 0.11 and (i > 0 or malformed)) or (u < 0.2 and base_w > k):
+            w += 1                                        # surplus items (rarely on the first row)
+        elif u < 0.13 and (i > 0 or malformed):
             w = rng.randrange(1, k + 3)
         items = []
         for j in range(w):
@@ -205,7 +210,7 @@ def gen_spec(rng, malformed=False):
             line = rng.choice([' ', '  ', '   ']) + line
         if rng.random() < 0.12:
             line += rng.choice([' ', '  '])
-        if rng.random() < 0.03:
+        if rng.random() < (0.03 if i > 0 or malformed else 0.005):
             line += rng.choice([',', ' ,', '\t'])
         if malformed and rng.random() < 0.03:
             line = line.replace(',', ' \t', 1)
@@ -225,12 +230,12 @@ def gen_spec(rng, malformed=False):
         r = rng.random()
         if r < 0.05:
             out.append((cchar or 'Comment') + rng.choice([' note', '', ',1,2', ' 1 2 3']))
-        elif r < 0.065:
+        elif r < (0.065 if malformed else 0.055):
             out.append(rng.choice(['', ' ', '\t', '  ']))                       # blank line
         elif r < 0.08 and ignc not in (None, '#', '@'):
             out.append('#1,2,3')                                                 # '#' is not a comment then
     final_newline = rng.random() < 0.8
-    if rng.random() < 0.04:
+    if rng.random() < (0.06 if malformed else 0.025):
         out.append((cchar or 'c') + ' last')                                     # comment as last line
         final_newline = rng.random() < 0.5
     text = '\n'.join(out) + ('\n' if final_newline else '')
@@ -279,7 +284,7 @@ def gen_spec(rng, malformed=False):
             filters.append(f)
     dataopts = []
     if ignc is not None:
-        q = "'" if ignc == '"' else ''
+        q = "'" if ignc == '"' else rng.choice(['', '', '', "'", '"'])
         dataopts.append(f'IGNORE={q}{ignc}{q}')
     if nullc is not None:
         dataopts.append(f'NULL={nullc}')
@@ -342,15 +347,21 @@ def control_stream(spec, path):
 
 def input_term(spec, path, mod=None):
     """Export the REAL parsed records of the control stream (not the generator's view of them)."""
+    code = control_stream(spec, path)
+    term, info = input_term_from_code(code, spec['text'])
+    return term, code, info
+
+
+def input_term_from_code(code, text):
     from pharmpy.model.external.nonmem.nmtran_parser import NMTranParser
     import pharmpy
-    code = control_stream(spec, path)
     try:
         cs = NMTranParser().parse(code)
         inp = cs.get_records('INPUT')
         opts = [(k, v) for r in inp for (k, v) in r.all_options]
         dr = cs.get_records('DATA')[0]
-        ignc = dr.ignore_character
+        igntree = dr.root.first_branch('ignchar', 'char')       # the raw CHAR token, not the derived property
+        ignc = str(igntree) if igntree else None
         nulltree = dr.root.first_branch('null', 'char')
         nullc = str(nulltree) if nulltree else None
         filts = {}
@@ -373,20 +384,20 @@ def input_term(spec, path, mod=None):
         raise
     except Exception as e:
         raise Skip('control stream does not parse: ' + type(e).__name__)
-    if ignc is not None and len(ignc) != 1:
-        raise Skip('ignore character of length != 1')
+    if ignc is not None and len(list(dr.root.subtrees('ignchar'))) != 1:
+        raise Skip('several IGNORE=c options')
     if nullc is not None and len(nullc) != 1:
         raise Skip('null character of length != 1')
     mdt = str(pharmpy.conf.missing_data_token)
     ft = lambda f: f"(mkFilt {s_term(f[0])} {ct.opt(None if f[1] is None else s_term(f[1]))} {s_term(f[2])})"
-    term = ("(mkInput " + s_term(spec['text']) + "\n  "
+    term = ("(mkInput " + s_term(text) + "\n  "
             + ct.lst([ct.pair(s_term(k), ct.opt(None if v is None else s_term(v))) for k, v in opts]) + "\n  "
-            + ct.opt(None if ignc is None else f'{ord(ignc)}%N') + " "
+            + ct.opt(None if ignc is None else s_term(ignc)) + " "
             + ct.opt(None if nullc is None else f'{ord(nullc)}%N') + "\n  "
             + ct.lst([ft(f) for f in filts['ignore']]) + " " + ct.lst([ft(f) for f in filts['accept']]) + " "
             + s_term(mdt) + ")")
     info = {'ncols': len(opts), 'nfilters': len(filts['ignore']) + len(filts['accept']), 'ignc': ignc, 'nullc': nullc}
-    return term, code, info
+    return term, info
 
 
 def read_dataset(code, mutate=None):
@@ -421,6 +432,18 @@ def observe(spec, datadir, idx, mutate=None):
     return f'(mkCase {in_term}\n  {obs})', info
 
 
+def opts_term(code):
+    """$INPUT record.all_options of a control stream, as parsed by pharmpy."""
+    from pharmpy.model.external.nonmem.nmtran_parser import NMTranParser
+    cs = NMTranParser().parse(code)
+    opts = [(k, v) for r in cs.get_records('INPUT') for (k, v) in r.all_options]
+    return ct.lst([ct.pair(s_term(k), ct.opt(None if v is None else s_term(v))) for k, v in opts])
+
+
+def newcols_term(model):
+    return ct.lst([ct.pair(s_term(c.name), ct.boolean(bool(c.drop))) for c in model.datainfo])
+
+
 # ------------------------------------------------------------------ write/read cycle
 def gen_cycle_spec(rng):
     k = rng.choice([2, 3, 4, 5])
@@ -440,10 +463,14 @@ def gen_cycle_spec(rng):
                     num = rng.choice([0, 1, 3, 5, 7, 12, 25, 100, 1023, -3, -1])
                     den = rng.choice([1, 1, 2, 4, 8, 16, 1024])
                     e = rng.choice([0, 0, 0, 10, -10, 40, -40])
+                    if rng.random() < 0.3:                                       # an arbitrary double
+                        num = rng.getrandbits(53) * rng.choice([1, -1])
+                        den = 1
+                        e = rng.randint(-1100, 960) if rng.random() < 0.3 else rng.randint(-80, 20)
                     row.append([num, den, e] if rng.random() > 0.04 else None)      # None = missing value
             rows.append(row)
-    first = rng.choice(['ID', 'ID', 'ID', '1ID', '#ID', 'Id'])
-    return {'names': names, 'rows': rows, 'start': rng.choice(['plain', 'withdata']), 'first_label': first}
+    first = rng.choice(['ID', 'ID', 'ID', 'SUBJ', 'Id', 'L1'])
+    return {'names': names, 'rows': rows, 'start': rng.choice(['plain', 'plain', 'wide', 'filters', 'drop', 'anon']), 'first_label': first}
 
 
 def cycle_observe(spec, workdir, idx):
@@ -453,6 +480,7 @@ def cycle_observe(spec, workdir, idx):
     d = Path(workdir) / f'cyc{idx}'
     d.mkdir(parents=True, exist_ok=True)
     names = list(spec['names'])
+    names[0] = spec.get('first_label', names[0])
 
     def val(x):
         if x is None:
@@ -463,12 +491,27 @@ def cycle_observe(spec, workdir, idx):
         return float(F(num, den) * F(2) ** e)
     data = {nm: [val(r[j]) for r in spec['rows']] for j, nm in enumerate(names)}
     df = pd.DataFrame(data)
-    df['ID'] = df['ID'].astype('int32')
+    if 'ID' in df.columns:
+        df['ID'] = df['ID'].astype('int32')
     if 'DVID' in df.columns:
         df['DVID'] = df['DVID'].astype('int32')
     start = d / 'start.csv'
-    start.write_text('1,0,1\n1,1,2\n')
-    code = f"$PROBLEM c13\n$INPUT ID TIME DV\n$DATA {start}\n" + CODE_TAIL
+    kind = spec.get('start', 'plain')
+    if kind == 'wide':                     # the original $INPUT has more columns than the new dataset
+        start.write_text('1,0,1,70,5,2\n1,1,2,70,5,3\n')
+        code = f"$PROBLEM c13\n$INPUT ID TIME DV WGT APGR X1\n$DATA {start}\n" + CODE_TAIL
+    elif kind == 'filters':                # IGNORE=c, filters and a synonym to be replaced
+        start.write_text('#h\n1,0,1\n1,1,2\n7,1,2\n')
+        code = f"$PROBLEM c13\n$INPUT ID TIME DV=CONC\n$DATA {start} IGNORE=# IGNORE=(ID.EQ.1)\n" + CODE_TAIL
+    elif kind == 'drop':                   # dropped and anonymous columns in the original $INPUT
+        start.write_text('1,x,1,9\n1,y,2,9\n')
+        code = f"$PROBLEM c13\n$INPUT ID SEX=DROP DV DROP\n$DATA {start}\n" + CODE_TAIL
+    elif kind == 'anon':                   # an anonymous DROP where the new dataset has a column
+        start.write_text('1,0,1\n1,1,2\n')
+        code = f"$PROBLEM c13\n$INPUT ID DROP DV\n$DATA {start}\n" + CODE_TAIL
+    else:
+        start.write_text('1,0,1\n1,1,2\n')
+        code = f"$PROBLEM c13\n$INPUT ID TIME DV\n$DATA {start}\n" + CODE_TAIL
     with warnings.catch_warnings():
         warnings.simplefilter('ignore')
         try:
@@ -480,11 +523,15 @@ def cycle_observe(spec, workdir, idx):
             df3 = m3.dataset
             before = table_term(df)
             after = table_term(df3)
+            # the files pharmpy wrote, as an ordinary read case for the model / reference reader
+            in_term, _ = input_term_from_code(target.read_text(), m3.datainfo.path.read_text())
+            readcase = f'(mkCase {in_term}\n  {after})'
+            optsterm = ' '.join([opts_term(code), newcols_term(m2), opts_term(target.read_text())])
         except Skip:
             raise
         except Exception as e:
-            return f'(mkCycle (Ok []) {err_term(e)})', {'error': type(e).__name__ + ': ' + str(e)[:200]}
-    return f'(mkCycle {before} {after})', {'rows': len(df), 'cols': len(names)}
+            return f'(mkCycle (Ok []) {err_term(e)} [] [] [])', None, {'error': type(e).__name__ + ': ' + str(e)[:200]}
+    return f'(mkCycle {before} {after} {optsterm})', readcase, {'rows': len(df), 'cols': len(names), 'start': kind}
 
 
 # ------------------------------------------------------------------ classification
@@ -514,6 +561,27 @@ def classify(ctx, spec, tags):
     return status
 
 
+def classify_cycle(ctx, spec, tags, info):
+    tags = set(tags)
+    prop = sorted(t for t in tags if t in (21, 22, 23, 24))
+    gfalse = [t for t in tags if t in CYCLE_GUARDS]
+    if prop:
+        open_f = [CYCLE_GUARDS[t][2] for t in gfalse if CYCLE_GUARDS[t][1] == 'finding' and ctx.open_finding(CYCLE_GUARDS[t][2])]
+        if 25 not in tags and open_f:
+            for fid in open_f:
+                ctx.coverage.setdefault('known_hits', {}).setdefault(fid, 0)
+                ctx.coverage['known_hits'][fid] += 1
+            return 'known'
+        if 25 not in tags and gfalse and all(CYCLE_GUARDS[t][1] == 'class' for t in gfalse):
+            return 'outside_class'
+        ctx.violation(TAGS[prop[0]], {'cycle_spec': spec, 'tags': sorted(tags), 'info': info})
+        return 'violation'
+    if 25 in tags:
+        ctx.broken.append('correspondence C13 update_input model vs implementation on ' + json.dumps(spec)[:400])
+        return 'broken'
+    return 'ok'
+
+
 def run_specs(ctx, specs, label, mutate=None):
     datadir = ctx.rundir / 'data'
     datadir.mkdir(exist_ok=True)
@@ -535,6 +603,14 @@ def finding_probes(ctx):
     for f in ctx.findings:
         if f.get('status') != 'open':
             continue
+        if 'cycle_spec' in f['witness']:
+            term, _, _ = cycle_observe(f['witness']['cycle_spec'], ctx.rundir / 'cycle-finding', 0)
+            tags = set(ctx.run_cases('finding-' + f['id'], IMPORTS, 'cycle_case', [term], 'cycle_verdict')[0])
+            if {f['expect_tag'], f['guard_tag']} <= tags and 25 not in tags:
+                ctx.known(f['id'])
+            else:
+                ctx.notes.append(f"finding_not_reproduced {f['id']} (tags {sorted(tags)})")
+            continue
         kept, verdicts, _, _ = run_specs(ctx, [f['witness']], 'finding-' + f['id'])
         tags = set(verdicts[0]) if verdicts else set()
         need = {f['expect_tag'], f.get('guard_tag', f['expect_tag'])}
@@ -546,25 +622,92 @@ def finding_probes(ctx):
 
 def run_cycles(ctx, n):
     specs = [gen_cycle_spec(ctx.rng) for _ in range(n)]
-    terms, kept, infos = [], [], []
+    terms, kept, infos, readcases = [], [], [], []
     for k, spec in enumerate(specs):
         try:
-            term, info = cycle_observe(spec, ctx.rundir / 'cycle', k)
+            term, readcase, info = cycle_observe(spec, ctx.rundir / 'cycle', k)
         except Skip:
             continue
         terms.append(term)
         kept.append(spec)
         infos.append(info)
+        readcases.append(readcase)
     verdicts = ctx.run_cases('cycle', IMPORTS, 'cycle_case', terms, 'cycle_verdict', shard=100) if terms else []
     bad = 0
+    cstats = {}
     for spec, tags, info in zip(kept, verdicts, infos):
-        if tags:
-            bad += 1
-            ctx.violation(TAGS[tags[0]], {'cycle_spec': spec, 'tags': tags, 'info': info})
+        st = classify_cycle(ctx, spec, tags, info)
+        cstats[st] = cstats.get(st, 0) + 1
+        bad += st == 'violation'
+    ctx.coverage['cycle_status'] = cstats
+    # the written csv + generated $INPUT/$DATA through the model and the reference reader: ties the printer
+    # hypothesis of write_read_cycle (clean tokens that read back) to the real to_csv output
+    rc = [(s, t) for s, t in zip(kept, readcases) if t is not None]
+    rverdicts = ctx.run_cases('cycle-read', IMPORTS, 'case', [t for _, t in rc], 'verdict', shard=100) if rc else []
+    rbad = 0
+    for (spec, _), tags in zip(rc, rverdicts):
+        if any(t in CORR or t == 11 for t in tags):
+            rbad += 1
+            ctx.violation('written dataset: ' + TAGS[[t for t in tags if t in CORR or t == 11][0]],
+                          {'cycle_spec': spec, 'tags': tags})
+    ctx.coverage['cycle_read_cases'] = {'cases': len(rc), 'failed': rbad,
+                                        'guard_true': sum(1 for v in rverdicts if not any(t in GUARDS for t in v))}
     ctx.coverage['cycle'] = {'cases': len(kept), 'failed': bad,
-                             'rule': 'numeric DataFrames with integer ID, dyadic values m/2^k * 2^e and NaN; set_dataset + '
+                             'rule': 'numeric DataFrames with integer ID, values m/2^k * 2^e (small and arbitrary 53-bit m) and NaN; set_dataset + '
                                      'write_model + read_model; compared exactly inside Coq'}
     return len(kept)
+
+
+def run_enumerations(ctx):
+    """Exhaustive small-scope ties: every string over a small alphabet up to a length bound."""
+    import itertools
+    import re as _re
+    from pharmpy.model.external.nonmem.dataset import convert_fortran_number
+    quick = ctx.tier == 'quick'
+    alpha = '12.+-ed_' if quick else '01.+-eDd_'
+    maxlen = 4 if quick else 5
+    terms, strs = [], []
+    for L in range(0, maxlen + 1):
+        for tup in itertools.product(alpha, repeat=L):
+            st = ''.join(tup)
+            try:
+                v = float(convert_fortran_number(st))
+                if math.isnan(v) or math.isinf(v):
+                    continue
+                obs = ct.opt(ct.q(F(v)))
+            except ValueError:
+                obs = 'None'
+            terms.append(ct.pair(s_term(st), obs))
+            strs.append(st)
+    verdicts = ctx.run_cases('enum-convert', IMPORTS, 'str * option Q', terms, 'conv_verdict', shard=3000)
+    bad = [st for st, v in zip(strs, verdicts) if v]
+    for st in bad[:3]:
+        ctx.broken.append(f'convert_fortran_number({st!r}) differs from the model')
+    nconv = len(strs)
+    sep = _re.compile(r' *, *| *[\t] *| +')
+    alpha2 = ' ,\ta' if quick else ' ,\tab'
+    maxlen2 = 6 if quick else 7
+    terms, strs = [], []
+    for L in range(1, maxlen2 + 1):
+        for tup in itertools.product(alpha2, repeat=L):
+            st = ''.join(tup)
+            items = sep.split(st.strip())
+            terms.append(ct.pair(s_term(st), ct.lst([s_term(x) for x in items])))
+            strs.append(st)
+    verdicts = ctx.run_cases('enum-split', IMPORTS, 'str * list str', terms, 'split_verdict', shard=3000)
+    for st, v in zip(strs, verdicts):
+        if 6 in v:
+            ctx.broken.append(f're.split of {st!r} differs from the model')
+            break
+    for st, v in zip(strs, verdicts):
+        if 12 in v:
+            ctx.violation('a row is split differently from the documented delimiter rules', {'row': st, 'tags': v})
+            break
+    ctx.coverage['enumerations'] = {
+        'convert': {'alphabet': alpha, 'max_length': maxlen, 'strings': nconv, 'disagreements': len(bad)},
+        'split': {'alphabet': repr(alpha2), 'max_length': maxlen2, 'strings': len(strs),
+                  'disagreements': sum(1 for v in verdicts if v)}}
+    return nconv + len(strs)
 
 
 def run(ctx):
@@ -597,8 +740,8 @@ def run(ctx):
     specs = [json.loads(p.read_text()) for p in reg]
     specs = [s['spec'] if 'spec' in s else s for s in specs]
     nreg = len(specs)
-    n = 700 if ctx.tier == 'quick' else 14000
-    nm = 150 if ctx.tier == 'quick' else 3000
+    n = 700 if ctx.tier == 'quick' else 11000
+    nm = 150 if ctx.tier == 'quick' else 2500
     specs += [gen_spec(ctx.rng) for _ in range(n)]
     specs += [gen_spec(ctx.rng, malformed=True) for _ in range(nm)]
     kept, verdicts, infos, skipped = run_specs(ctx, specs, 'gen')
@@ -606,8 +749,9 @@ def run(ctx):
     for spec, tags in zip(kept, verdicts):
         st = classify(ctx, spec, tags)
         stats[st] = stats.get(st, 0) + 1
-    ncyc = run_cycles(ctx, 40 if ctx.tier == 'quick' else 600)
-    ctx.coverage['evaluations'] = len(kept) + ncyc
+    ncyc = run_cycles(ctx, 40 if ctx.tier == 'quick' else 500)
+    nenum = run_enumerations(ctx)
+    ctx.coverage['evaluations'] = len(kept) + ncyc + nenum
     distinct = {json.dumps(s, sort_keys=True) for s, i in zip(kept, infos) if i.get('rows', 0) >= 1 and i['ncols'] >= 2}
     ctx.coverage['distinct_nontrivial'] = len(distinct)
     ctx.coverage['rule'] = ('data files generated from the documented lexical forms (number forms, delimiters, NULL items, '
@@ -637,8 +781,18 @@ def run(ctx):
 
 def replay(ctx, rep):
     if 'cycle_spec' in rep:
-        term, info = cycle_observe(rep['cycle_spec'], ctx.rundir / 'cycle', 0)
+        term, readcase, info = cycle_observe(rep['cycle_spec'], ctx.rundir / 'cycle', 0)
         tags = ctx.run_cases('replay', IMPORTS, 'cycle_case', [term], 'cycle_verdict')[0]
+        excused = (25 not in tags and any(t in CYCLE_GUARDS and CYCLE_GUARDS[t][1] == 'finding' and
+                                          ctx.open_finding(CYCLE_GUARDS[t][2]) for t in tags))
+        tags = [t for t in tags if t in (21, 22, 23, 24, 25)]
+        if excused:
+            print('explained by an open finding', tags)
+            tags = []
+        if readcase is not None:
+            rt = ctx.run_cases('replay-read', IMPORTS, 'case', [readcase], 'verdict')[0]
+            print('read-case tags', rt)
+            tags = tags + [t for t in rt if t in CORR or t == 11]
         print('cycle spec', json.dumps(rep['cycle_spec']))
         print('info', info)
         print('tags', tags, [TAGS.get(t, t) for t in tags])
